@@ -12,6 +12,7 @@ import (
 	"path/filepath"
 	"strings"
 	"sync"
+	"sync/atomic"
 	"time"
 
 	"github.com/nuetzliches/hookaido/internal/app"
@@ -25,7 +26,36 @@ import (
 // and net.DefaultResolver (a pure-Go resolver whose "connection" is an in-process DNS responder backed by the row's
 // script).  Rows therefore run one at a time in this mode.
 
-var prodMu sync.Mutex
+var (
+	prodMu   sync.Mutex
+	prodOnce sync.Once
+	curRec   atomic.Pointer[Recorder]
+	curDNS   atomic.Pointer[dnsResponder]
+)
+
+type switchTransport struct{}
+
+func (switchTransport) RoundTrip(req *http.Request) (*http.Response, error) {
+	r := curRec.Load()
+	if r == nil {
+		return nil, fmt.Errorf("no recorder installed")
+	}
+	return r.RoundTrip(req)
+}
+
+// installProdGlobals replaces the two process globals once; every execution then installs its own recorder / script.
+func installProdGlobals() {
+	prodOnce.Do(func() {
+		http.DefaultTransport = switchTransport{}
+		net.DefaultResolver = &net.Resolver{PreferGo: true, Dial: func(ctx context.Context, network, address string) (net.Conn, error) {
+			d := curDNS.Load()
+			if d == nil {
+				return nil, fmt.Errorf("no dns script installed")
+			}
+			return d.dial(ctx, network, address)
+		}}
+	})
+}
 
 // dnsConn is the client side of an in-memory DNS-over-TCP exchange (2-byte length framing).
 type dnsResponder struct {
@@ -139,6 +169,13 @@ func ProdEligible(row *Row, c *Conc) bool {
 	if strings.ContainsAny(c.Hops[0].URL, "\"\\{}") {
 		return false
 	}
+	// Go's own resolver does not query all-numeric names ("2130706433", "0177.0.0.1"): it fails them locally, whatever the
+	// row scripts as answer.  Only odd notations with a letter (hex forms) reach the scripted DNS responder.
+	for i := range row.Hops {
+		if row.Hops[i].U.H.K == "odd" && !row.Hops[i].Ans.isErr() && !strings.ContainsAny(strings.ToLower(c.Hops[i].Host), "abcdefx") {
+			return false
+		}
+	}
 	return true
 }
 
@@ -148,15 +185,13 @@ func ExecProd(c *Conc, scratch string, seq int) (Obs, Disp, error) {
 	defer prodMu.Unlock()
 	rec := &Recorder{Chain: c.Hops}
 	stub := &StubResolver{Chain: c.Hops, Rec: rec}
-	dns := &dnsResponder{stub: stub}
-	oldT, oldR := http.DefaultTransport, net.DefaultResolver
-	http.DefaultTransport = rec
-	net.DefaultResolver = &net.Resolver{PreferGo: true, Dial: dns.dial}
-	defer func() { http.DefaultTransport, net.DefaultResolver = oldT, oldR }()
+	installProdGlobals()
+	curRec.Store(rec)
+	curDNS.Store(&dnsResponder{stub: stub})
 
 	target := c.Hops[0].URL
 	src := "ingress { listen \"127.0.0.1:0\" }\npull_api {\n  listen \"127.0.0.2:0\"\n  auth token \"raw:t\"\n}\nadmin_api { listen \"127.0.0.3:0\" }\n\n" +
-		c.Policy + "\n\"/p\" {\n  deliver " + fmt.Sprintf("%q", target) + " {\n    retry exponential max 1 base 5ms cap 5ms jitter 0\n    timeout 5s\n  }\n}\n"
+		c.Policy + "\n\"/p\" {\n  deliver " + fmt.Sprintf("%q", target) + " {\n    retry exponential max 1 base 30s cap 30s jitter 0\n    timeout 5s\n  }\n}\n"
 	cfgPath := filepath.Join(scratch, fmt.Sprintf("prod-%d.hookaido", seq))
 	if err := os.WriteFile(cfgPath, []byte(src), 0o600); err != nil {
 		return Obs{}, Disp{}, err
@@ -182,12 +217,20 @@ func ExecProd(c *Conc, scratch string, seq int) (Obs, Disp, error) {
 		if state == "delivered" || state == "dead" || state == "gone" || time.Now().After(deadline) {
 			break
 		}
+		// a failed attempt that will be retried (in 30 s): the message is queued again with its attempt counted; the
+		// retry is not awaited - one attempt is what this mode observes
+		if state == "queued" && attempt >= 1 {
+			state = "retrying"
+			break
+		}
 		time.Sleep(2 * time.Millisecond)
 	}
 	time.Sleep(10 * time.Millisecond)
-	inst.Stop()
+	// Stop waits for the dispatcher's workers to come back from their (2 s) dequeue wait; the message is terminal, so the
+	// instance is shut down in the background
+	go inst.Stop()
 	for _, r := range store.VerifDump() {
-		if r.Env.ID == "m1" {
+		if r.Env.ID == "m1" && state != "retrying" {
 			state, reason, attempt = string(r.Env.State), r.Env.DeadReason, r.Env.Attempt
 		}
 	}
@@ -234,3 +277,5 @@ func ExecProd(c *Conc, scratch string, seq int) (Obs, Disp, error) {
 	stub.mu.Unlock()
 	return o, disp, nil
 }
+
+func (a Ans) isErr() bool { return a.St == "err" }
